@@ -36,7 +36,9 @@ def describe(tier):
         "scan_node activations - 1, read by the registry wrapper) and the multiset of (level, searched value) passes equals that of the reference procedure run with budget k (so descending into decoder-supplied sub-structure costs one level per nesting level); the scan terminates although modes rd/rk/dT make every decoded value "
         "decodable again. Oracle (ii) for every pair (k, k+1): tree(k) == tree(k+1) with every node produced by the deepest search pass "
         "(level k) removed -- which implies the order-preserving sub-list relation of every child list. 'layers' = base64^n, hex^n, "
-        "(concat o base64)^n for n=1..12 on the shipped registry x k=-1..13. Non-trivial = a pair (k,k+1) whose trees differ.",
+        "(concat o base64)^n for n=1..12 on the shipped registry x k=-1..13. Caller-stack axis: every 1-hit configuration (N=3, modes rd/rk/rp) and base64^12 at k=-1..13 is "
+        f"scanned from a recursive caller with (frames already on the stack, recursion limit) in {CALLER_DEPTHS}: same passes as the model, same tree as from a shallow caller "
+        "(a scan for which the caller left too little stack, RecursionError, is skipped). Non-trivial = a pair (k,k+1) whose trees differ.",
         "bounds": BOUNDS[tier],
         "assumptions": ["decoders are pure (C09) so the shallow passes of two scans are identical"],
         "exhaustive": True,
@@ -53,7 +55,44 @@ def plan(tier, seed):
         units.append((tier, "stream", u))
     for kind in ("b64", "hex", "concat-b64"):
         units.append((tier, "layers", kind))
+    for d in CALLER_DEPTHS:
+        units.append((tier, "callstack", d))
     return units
+
+
+# The caller's own stack depth is an environment answer: a scan started from a deeply recursive caller (or under a different
+# recursion limit) must apply the decoders to exactly the same levels.  (frames already on the stack, recursion limit)
+CALLER_DEPTHS = [(100, 1000), (500, 1000), (800, 1000), (900, 1000), (920, 1000), (930, 1000), (940, 1000), (2940, 3000), (140, 200)]
+
+
+def _stack_depth():
+    import sys
+    n, f = 0, sys._getframe(0)
+    while f is not None:
+        n, f = n + 1, f.f_back
+    return n
+
+
+def at_depth(frames, limit, fn):
+    """Call fn() with `frames` frames already on the stack and the interpreter's recursion limit set to `limit`."""
+    import sys
+    old = sys.getrecursionlimit()
+    sys.setrecursionlimit(max(limit, _stack_depth() + 50))
+
+    base = _stack_depth() + 1
+
+    def descend(have):
+        if have >= frames:
+            sys.setrecursionlimit(max(limit, have + 45))
+            return fn()
+        return descend(have + 1)
+
+    try:
+        return descend(base)
+    except RecursionError:
+        return None  # the caller left too little stack for any scan: not the library's doing
+    finally:
+        sys.setrecursionlimit(old)
 
 
 def strip(tree, log, k):
@@ -124,17 +163,25 @@ def check_ladder(rec, scan, data, ks, w, size, key, tolerant=False):
                 rec.mark("nontrivial", (key, k))
 
 
-def synth(rec, T, hits, mode, grouped, ks):
+def synth(rec, T, hits, mode, grouped, ks, caller=None):
     from multidecoder.multidecoder import Multidecoder
 
     _, ireg = hitx.registries(T, hits, mode, grouped)
     w = {"engine": "hitx-ladder", "T": T, "hits": [list(h) for h in hits], "mode": mode, "grouped": grouped, "ks": list(ks)}
+    if caller:
+        w["caller"] = list(caller)
 
     mreg, _ = hitx.registries(T, hits, mode, grouped)
     size = len(hits) * 100 + hitx.MODES.index(mode)
 
     def scan(k):
-        tree, log = trees.iscan(ireg, T, k)
+        if caller:
+            res = at_depth(caller[0], caller[1], lambda: trees.iscan(ireg, T, k))
+            if res is None:
+                return None
+            tree, log = res
+        else:
+            tree, log = trees.iscan(ireg, T, k)
         # the decoder passes (recursion level, searched value) must be exactly those of the reference procedure with budget k
         tr = Trace()
         ref_scan(R("", T, "", 0, len(T)), k, mreg, tr)
@@ -197,6 +244,31 @@ def run_unit(unit, rec):
                 last = data
         if last is not None:
             rec.sample({"family": name, "data": last, "ks": list(b["stream_ks"])})
+    elif kind == "callstack":
+        caller = unit[2]
+        T = hitx.text(3)
+        n = 0
+        for first in hitx.candidates(3):
+            for hits in hitx.configs_from(first, 3, 1):
+                for mode in ("rd", "rk", "rp"):
+                    synth(rec, T, hits, mode, False, tuple(range(-1, 14)), caller=caller)
+                    n += 1
+        reg = streams.registry()
+        data = layers("b64", 12)
+        shallow = {k: trees.tup(trees.iscan(reg, data, k)[0]) for k in range(-1, 14)}
+        w = {"engine": "layers-callstack", "kind": "b64", "n": 12, "caller": list(caller), "ks": list(range(-1, 14))}
+
+        def deep_scan(k):
+            return at_depth(caller[0], caller[1], lambda: trees.iscan(reg, data, k))
+
+        check_ladder(rec, deep_scan, data, tuple(range(-1, 14)), w, 12000, ("b64-callstack", caller), tolerant=True)
+        for k in range(-1, 14):
+            res = deep_scan(k)
+            if res is not None and trees.tup(res[0]) != shallow[k]:
+                rec.violation("C07.level<k", "tree-depends-on-caller-stack", dict(w, depth=k),
+                              f"12 base64 layers, depth limit {k}: the tree of a scan started with {caller[0]} frames on the stack (recursion limit {caller[1]}) differs from the "
+                              f"tree of the same scan started from a shallow caller", 12000 + k)
+        rec.sample({"callstack": list(caller), "synthetic_configurations": n, "ks": "-1..13"})
     elif kind == "layers":
         reg = streams.registry()
         for n in range(1, b["layers"] + 1):
@@ -214,7 +286,9 @@ def replay(w, rec):
     k = w.get("depth", 0)
     ks = tuple(sorted(set(w.get("ks", [])) | {k - 1, k, k + 1}))
     if eng == "hitx-ladder":
-        synth(rec, w["T"], tuple(tuple(h) for h in w["hits"]), w["mode"], w["grouped"], ks)
+        synth(rec, w["T"], tuple(tuple(h) for h in w["hits"]), w["mode"], w["grouped"], ks, caller=tuple(w["caller"]) if w.get("caller") else None)
+    elif eng == "layers-callstack":
+        run_unit(("quick", "callstack", tuple(w["caller"])), rec)
     elif eng == "stream-ladder":
         reg = streams.registry()
         data = w["data"]
